@@ -102,8 +102,8 @@ class Run:
             # only this property's dependency cone (and the model runner's): an unrelated part of the
             # development being rebuilt or broken must not disturb this check
             targets = ["theories/CodecA.vo"]
-            if os.path.exists(os.path.join(PROPS, self.prop + ".v")):
-                targets.append("theories/props/%s.vo" % self.prop)
+            for extra_pf in sorted(glob.glob(os.path.join(PROPS, self.prop + "*.v"))):
+                targets.append("theories/props/%s.vo" % os.path.basename(extra_pf)[:-2])
             p = subprocess.run(["make", "-j16"] + targets, cwd=COQ, capture_output=True, text=True, timeout=3000)
             if p.returncode != 0:
                 self.proof_failures.append("make failed: " + (p.stdout + p.stderr)[-1500:])
@@ -158,7 +158,59 @@ class Run:
                 n_dis += k
             else:
                 self.proof_failures.append("no up-to-date .vo for " + os.path.relpath(v, VERIF))
+        # companion property files props/<ID><suffix>.v (general theorems added next to a generated file)
+        for comp in sorted(glob.glob(os.path.join(PROPS, self.prop + "?*.v"))):
+            q = subprocess.run(["coqc", "-Q", THEORIES, "HS", "-o", os.path.join(outdir, os.path.basename(comp)[:-2] + ".vo"), comp],
+                               capture_output=True, text=True, timeout=1800)
+            for ext in (".vo", ".vok", ".vos", ".glob"):
+                try:
+                    os.remove(os.path.join(outdir, os.path.basename(comp)[:-2] + ext))
+                except OSError:
+                    pass
+            o2 = q.stdout + q.stderr
+            src2 = strip_comments(open(comp).read())
+            asked2 = re.findall(r"Print\s+Assumptions\s+([A-Za-z0-9_'.]+)\s*\.", src2)
+            if q.returncode != 0:
+                self.proof_failures.append("props/%s does not check: %s" % (os.path.basename(comp), o2[-800:]))
+            elif o2.count("Closed under the global context") < len(asked2):
+                ax2 = re.findall(r"^Axioms:\n((?:.+\n?)+?)(?=\n\S|\Z)", o2, re.M)
+                if ax2:
+                    self.axioms.setdefault("listed", []).extend(a.strip() for a in ax2)
+                else:
+                    self.proof_failures.append("Print Assumptions of %s answered fewer than asked" % os.path.basename(comp))
+            self.theorems = list(self.theorems) + asked2
+            for v in sorted(coq_deps(comp)):
+                if v in deps:
+                    continue
+                deps.append(v)
+                s2 = strip_comments(open(v).read())
+                bad = FORBIDDEN.findall(s2)
+                if bad:
+                    self.proof_failures.append("forbidden construct %r in %s" % (sorted(set(bad)), os.path.relpath(v, VERIF)))
+                k = len(STMT.findall(s2))
+                n_ob += k
+                vo = v[:-2] + ".vo"
+                if v == comp:
+                    n_dis += k if q.returncode == 0 else 0
+                elif os.path.exists(vo) and os.path.getmtime(vo) >= os.path.getmtime(v):
+                    n_dis += k
+                else:
+                    self.proof_failures.append("no up-to-date .vo for " + os.path.relpath(v, VERIF))
+        self.extra["proof_files"] = [os.path.relpath(v, VERIF) for v in deps]
+        self.extra["property_theorems"] = self.theorems
         self.obligations, self.discharged = n_ob, n_dis
+        # thorough tier: the independent checker re-checks the compiled property file and everything it depends on
+        if self.tier == "thorough" and p.returncode == 0 and os.environ.get("VERIF_COQCHK", "1") != "0":
+            try:
+                c = subprocess.run(["coqchk", "-silent", "-o", "-Q", THEORIES, "HS", "HS.props." + self.prop],
+                                   capture_output=True, text=True, timeout=3000)
+                out2 = c.stdout + c.stderr
+                m = re.search(r"\* Axioms:\s*(.*?)\n\s*\n", out2, re.S)
+                self.extra["coqchk"] = {"exit": c.returncode, "axioms": (m.group(1).strip() if m else "?")[:600]}
+                if c.returncode != 0:
+                    self.proof_failures.append("coqchk rejects props/%s.vo: %s" % (self.prop, out2[-600:]))
+            except subprocess.TimeoutExpired:
+                self.extra["coqchk"] = {"exit": "timeout"}
         self.extra["proof_files"] = [os.path.relpath(v, VERIF) for v in deps]
         self.extra["property_theorems"] = asked
 
